@@ -126,66 +126,92 @@ func runC09(c *Ctx) {
 	}
 
 	// ---- A3/A4 delivery -------------------------------------------------------------------------
+	// (the send on the consumer channel, looked at where the announcement it sends is known: in the function itself,
+	// or — when delivering is a phase of its own that sends its parameter — at the call of that phase; the check
+	// and the stores to the announcement are looked up through the phases of the handling routine)
 	nSend := 0
-	for _, f := range c.Funcs(pkg) {
-		instrs(f.SSA, func(in ssa.Instruction) {
-			sel, ok := in.(*ssa.Select)
+	for _, ss := range c.SendSites(pkg) {
+		if x := strip(ss.Chan); x == nil || x.Op != "field" || x.Name != "outChan" {
+			continue
+		}
+		nSend++
+		host := topFunc(ss.Fn)
+		var hostFn *Fn
+		if obj, ok := host.Object().(*types.Func); ok {
+			hostFn = c.fnOf(obj)
+		}
+		key := c.short(host.String()) + " › deliver"
+		if hostFn != nil {
+			key = hostFn.Name + " › deliver"
+		}
+		var chk *InlSite
+		if checkFn != nil {
+			for _, cs := range c.CallsInl(host, CallTo(checkFn), 2) {
+				cs := cs
+				chk = &cs
+			}
+		}
+		if chk == nil {
+			c.Bad("C09.A3-deliver-checked", key, ss.Pos, "delivery not preceded by the allow/duplicate check")
+			continue
+		}
+		chkCall, _ := chk.In.(*ssa.Call)
+		g := false
+		if chkCall != nil {
+			_, g = c.Guarded(ss.At, EqNil(Is(c.E(chkCall))), true)
+		}
+		c.Check(g, "C09.A3-deliver-checked", key+" › on check == nil", ss.Pos, "delivery dominated by the check's nil result", "an announcement is delivered although the check rejected it")
+		// what is delivered: the checked announcement (same variable), CID/PeerID never stored to
+		checked := chk.X.Args[1]
+		sameAs := func(sent *X) bool {
+			return Same(sent, checked) || (sent.Cell != nil && sent.Cell == checked.Cell) || (sent.Op == "var" && checked.Op == "var" && sent.V == checked.V) ||
+				(strip(sent) != nil && strip(checked) != nil && strip(sent).V != nil && strip(sent).V == strip(checked).V)
+		}
+		same := sameAs(ss.Val)
+		if !same {
+			ls := c.Leaves(ss.Val, ss.At)
+			same = len(ls) > 0
+			for _, l := range ls {
+				if !sameAs(l) {
+					// the helper hands back its own (spilled) parameter: in the caller's terms, the checked value
+					if lv := strip(l); !(lv != nil && ParamLike()(lv, nil)) {
+						same = false
+					}
+				}
+			}
+		}
+		c.Check(same, "C09.A3-deliver-checked", key+" › delivers the checked announcement", ss.Pos, "the value delivered is the announcement that was checked", "the announcement delivered is not the one that was checked")
+		mod := ""
+		filtered := false
+		c.WalkInl(host, 2, func(ev InlEvent) {
+			s2, ok := ev.In.(*ssa.Store)
 			if !ok {
 				return
 			}
-			for _, st := range sel.States {
-				if x := c.E(st.Chan); x.Op != "field" || x.Name != "outChan" || st.Send == nil {
-					continue
+			a := c.E(s2.Addr)
+			if a.Op != "field" || fieldOwner(a) != "Announce" {
+				return
+			}
+			if base := strip(a.Args[0]); base != nil && (base.Op == "complit" || base.Op == "alloc" && !ParamLike()(base, nil)) {
+				if al, isAl := base.V.(*ssa.Alloc); isAl && strings.HasPrefix(al.Comment, "complit") {
+					return // a literal being built (e.g. the zero announcement returned with an error)
 				}
-				nSend++
-				key := f.Name + " › deliver"
-				// dominated by check == nil
-				var chk *CallSite
-				for _, cs := range c.Calls(f.SSA, Any()) {
-					if cs.In.Common().StaticCallee() == checkFn && checkFn != nil {
-						cs := cs
-						chk = &cs
-					}
+			}
+			switch a.Name {
+			case "Cid", "PeerID":
+				mod = a.Name
+			case "Addrs":
+				v := c.E(s2.Val)
+				_, isF := Match(Call("mautil.FilterPublic", Field("Addrs", Any())), v)
+				_, g := c.Guarded(s2, Field("filterIPs", Any()), true)
+				filtered = isF && g
+				if !filtered {
+					mod = "Addrs (not by the public filter under filterIPs)"
 				}
-				if chk == nil {
-					c.Bad("C09.A3-deliver-checked", key, sel.Pos(), "delivery not preceded by the allow/duplicate check")
-					continue
-				}
-				_, g := c.Guarded(sel, EqNil(Is(c.Result(*chk, 0))), true)
-				c.Check(g, "C09.A3-deliver-checked", key+" › on check == nil", sel.Pos(), "delivery dominated by the check's nil result", "an announcement is delivered although the check rejected it")
-				// what is delivered: the checked announcement (same variable), CID/PeerID never stored to
-				sent := c.E(st.Send)
-				same := Same(sent, chk.X.Args[1]) || (sent.Cell != nil && sent.Cell == chk.X.Args[1].Cell) || (sent.Op == "var" && chk.X.Args[1].Op == "var" && sent.V == chk.X.Args[1].V)
-				c.Check(same, "C09.A3-deliver-checked", key+" › delivers the checked announcement", sel.Pos(), "the value delivered is the announcement that was checked", "the announcement delivered is not the one that was checked")
-				mod := ""
-				filtered := false
-				instrs(f.SSA, func(o ssa.Instruction) {
-					s2, ok := o.(*ssa.Store)
-					if !ok {
-						return
-					}
-					a := c.E(s2.Addr)
-					if a.Op != "field" || fieldOwner(a) != "Announce" {
-						return
-					}
-					switch a.Name {
-					case "Cid", "PeerID":
-						mod = a.Name
-					case "Addrs":
-						v := c.E(s2.Val)
-						_, isF := Match(Call("mautil.FilterPublic", Field("Addrs", Any())), v)
-						_, g := c.Guarded(s2, Field("filterIPs", Any()), true)
-						filtered = isF && g
-						if !filtered {
-							mod = "Addrs (not by the public filter under filterIPs)"
-						}
-					}
-				})
-				c.Check(mod == "", "C09.A3-deliver-checked", key+" › CID and publisher unchanged", sel.Pos(), "CID and PeerID of the announcement are not modified before delivery", "the delivered announcement's "+mod+" is modified")
-				c.Check(filtered, "C09.A4-addresses-filtered", key+" › filterIPs", sel.Pos(), "with filterIPs, Addrs = mautil.FilterPublic(Addrs) before delivery and republication", "address filtering is not applied (or not to the delivered value)")
-				// filtering precedes republication and delivery
 			}
 		})
+		c.Check(mod == "", "C09.A3-deliver-checked", key+" › CID and publisher unchanged", ss.Pos, "CID and PeerID of the announcement are not modified before delivery", "the delivered announcement's "+mod+" is modified")
+		c.Check(filtered, "C09.A4-addresses-filtered", key+" › filterIPs", ss.Pos, "with filterIPs, Addrs = mautil.FilterPublic(Addrs) before delivery and republication", "address filtering is not applied (or not to the delivered value)")
 	}
 	c.Check(nSend == 1, "C09.A3-deliver-checked", "announce › single delivery site", token.NoPos, "one send site on the consumer channel", "the consumer channel is fed from "+itoa(nSend)+" sites")
 	c.Floor("C09.A3-deliver-checked", 4)
